@@ -308,7 +308,14 @@ def rule_r8(ctx):
     c04r4(ctx, rid="C05.R8")
 
 
-RULES = [rule_r1, rule_r2, rule_r3, rule_r4, rule_r5, rule_r6, rule_r7, rule_r8]
+def rule_r9(ctx):
+    """Shared with C12.R6: a producer that waits for the I/O thread is a lost wake-up unless the I/O thread, once woken,
+    actually selects a flush routine whenever the producer's wait predicate holds."""
+    from . import c12
+    c12.rule_r6(ctx, rid="C05.R9")
+
+
+RULES = [rule_r1, rule_r2, rule_r3, rule_r4, rule_r5, rule_r6, rule_r7, rule_r8, rule_r9]
 
 from ..selftest import M, T, V  # noqa: E402
 
